@@ -333,6 +333,43 @@ Fixpoint ops_okb (s : st) (ops : list op) : bool :=
   end.
 
 (* ------------------------------------------------------------------------------------------------ *)
+(* VideoBuffer._refresh_dbcs, the range computation: the unicode row `o` is replaced by the freshly converted row
+   `n`; updated = [old != new ...]; start = updated.index(True) + 1; stop = len(updated) - updated[::-1].index(True)
+   (ValueError: start, stop = len(updated), 0); then start, stop = min(start, orig_start), max(stop, orig_stop).
+   Cells are compared through their codes. *)
+Fixpoint updated (o n : list Z) : list bool :=
+  match o, n with
+  | a :: o', b :: n' => negb (a =? b) :: updated o' n'
+  | _, _ => []
+  end.
+
+Fixpoint first_true (l : list bool) (i : Z) : option Z :=
+  match l with
+  | [] => None
+  | b :: r => if b then Some i else first_true r (i + 1)
+  end.
+
+Fixpoint last_true (l : list bool) (i : Z) : option Z :=
+  match l with
+  | [] => None
+  | b :: r => match last_true r (i + 1) with
+              | Some j => Some j
+              | None => if b then Some i else None
+              end
+  end.
+
+Definition refresh_range (o n : list Z) (os oe : Z) : Z * Z :=
+  let u := updated o n in
+  let '(s, e) := match first_true u 1, last_true u 1 with
+                 | Some f, Some l => (f, l)
+                 | _, _ => (zlen u, 0)
+                 end in
+  (Z.min s os, Z.max e oe).
+
+Definition row_fn (l : list Z) : Z -> Z := fun col => nth (Z.to_nat (col - 1)) l blank.
+Definition enc_range (r : Z * Z) : list Z := [fst r; snd r].
+
+(* ------------------------------------------------------------------------------------------------ *)
 (* callers: TextScreen's scroll area (class ScrollArea, view_print_ in display/textscreen.py) - the source of
    the row arguments of clear_view / scroll / scroll_down.  Hand model; gen_signals checks (fail closed) that
    set/unset/init_mode/view_print_ and the call sites still have exactly this shape. *)
